@@ -361,7 +361,7 @@ fn main() {
     ctx.rule("big-capacity probes: capacities 32, 33, 48, 64, 65, 96, 128, 255 x every residual fill level 0..=cap x 0..2 leading next() calls x a batch of 0,1,2,3 or cap frames, then next / is_exhausted / a batch of 1: same stream, pull and exhaustion oracle");
     // 16-bit boundary probes: capacities around 2^16, structured fill levels and start offsets
     let mut cases16: Vec<(Init, Vec<Act>)> = Vec::new();
-    for cap in [65535u32, 65536, 65537] {
+    for cap in [512u32, 1024, 4096, 44100, 48000, 65535, 65536, 65537] {
         for r in [0u32, 1, 2, cap / 2, cap - 2, cap - 1, cap] {
             for start in [0u32, 1, 255, 256, cap / 2, cap - 1] {
                 let i = Init { cap, start, len: r, src: 0 };
@@ -386,7 +386,7 @@ fn main() {
     });
     ctx.add_evals(n16);
     ctx.set("sixteen_bit_capacity_histories", json!(n16));
-    ctx.rule("16-bit boundary probes: capacities 65535, 65536, 65537 x residual fill level in {0, 1, 2, cap/2, cap-2, cap-1, cap} x start offset in {0, 1, 255, 256, cap/2, cap-1} x 0..2 leading next() calls x a batch of 0, 1, 257, cap-1, cap or cap+1 frames, then next / is_exhausted / a batch of 1 / a full batch: same stream, pull and exhaustion oracle");
+    ctx.rule("16-bit boundary and audio-typical capacities 512, 1024, 4096, 44100, 48000, 65535, 65536, 65537 x residual fill level in {0, 1, 2, cap/2, cap-2, cap-1, cap} x start offset in {0, 1, 255, 256, cap/2, cap-1} x 0..2 leading next() calls x a batch of 0, 1, 257, cap-1, cap or cap+1 frames, then next / is_exhausted / a batch of 1 / a full batch: same stream, pull and exhaustion oracle");
     // soak probes: one long deterministic history per capacity on a single Buffered over a long source
     let soak_steps = ctx.tier.pick(20_000usize, 200_000);
     for cap in [1u32, 2, 3, 5, 8, 48, 64] {
